@@ -172,7 +172,12 @@ class C21(Check):
         return not isinstance(o, Err) and case["wkc_errors"] != 0
 
     def extra_checks(self):
-        return [isa_check.check(self.seed + 10, 40 if self.tier == "quick" else 300)]
+        # the property is stated over the frame histories of the dispatcher (C22): the real dispatcher bytecode must be the
+        # dispatch model for which tx_never_enabled is proved
+        from .common import foreign_correspondence
+        from .c22 import C22
+        return [isa_check.check(self.seed + 10, 40 if self.tier == "quick" else 300),
+                foreign_correspondence(C22, self.tier, self.seed + 11, 150 if self.tier == "quick" else 1500)]
 
     def rule(self):
         return ("fast sync groups over 1-4 simulated terminals (FMMU or direct, read-write or read-only: 1-5 write datagrams), frames from the real sterile() "
